@@ -197,7 +197,7 @@ func c13Success(r *core.Run, ci int64, rng *rand.Rand, crev, srev int, dial bool
 	var autoRows int
 	var autoVals string
 	var atReturn []string
-	ok := runWithWatchdog(40*time.Second, func() {
+	ok := runWithStuckWatchdog(40*time.Second, func() {
 		if dial {
 			opt.Dialer = &simDialer{mk: func(int) (*simnet.Conn, error) { return sim.Conn, nil }}
 			client, err = ch.Dial(ctx, opt)
@@ -396,7 +396,7 @@ func c13Failure(r *core.Run, ci int64, rng *rand.Rand, crev, srev int, kind stri
 	defer cancel()
 	var client *ch.Client
 	var err error
-	ok := runWithWatchdog(40*time.Second, func() {
+	ok := runWithStuckWatchdog(40*time.Second, func() {
 		if dial {
 			opt.Dialer = &simDialer{mk: func(int) (*simnet.Conn, error) { return sim.Conn, nil }}
 			client, err = ch.Dial(ctx, opt)
